@@ -510,7 +510,7 @@ def errRespond (e : Err) : Outcome := .respond e.code (some e)
 
 /-- `do_search` with token `t` (`implicit` = the token came from the implicit bind). -/
 def doSearch (w : World) (t : Token) (implicit : Option Token) (base : List Char) (scope : SScope)
-    (nattrs : Nat) : Outcome :=
+    (nattrs : Nat) (late : Option Code) : Outcome :=
   match planSearch w base scope nattrs with
   | .error e => errRespond e
   | .ok .rootDse => .rootDse implicit
@@ -518,23 +518,33 @@ def doSearch (w : World) (t : Token) (implicit : Option Token) (base : List Char
   | .ok (.query ext) =>
     match validateLdapSession w t.session with
     | .error e => errRespond e
-    | .ok id => .query id ext implicit
+    | .ok id =>
+      -- the search itself may still fail (filter conversion, schema, resource limits: C23 / C41)
+      match late with
+      | some c => .respond c none
+      | none => .query id ext implicit
 
 /-- `do_compare`: the entry DN must carry an rdn. -/
-def doCompare (w : World) (t : Token) (implicit : Option Token) (entry : List Char) : Outcome :=
+def doCompare (w : World) (t : Token) (implicit : Option Token) (entry : List Char)
+    (late : Option Code) : Outcome :=
   match parseBaseDn w.basedn entry with
   | none | some none => errRespond .invalidRequestState
   | some (some _) =>
     match validateLdapSession w t.session with
     | .error e => errRespond e
-    | .ok id => .compare id implicit
+    | .ok id =>
+      match late with
+      | some c => .respond c none
+      | none => .compare id implicit
 
 /-! ### Requests -/
 
 inductive Msg where
   | bind (dn : List Char) (pw : Nat) (softlocked : Bool)
-  | search (base : List Char) (scope : SScope) (nattrs : Nat)
-  | compare (entry : List Char)
+  /-- `late` = the error code of a failure of the search itself, after the identity was built
+  (unknown attribute, schema violation, resource limit): an external input here -/
+  | search (base : List Char) (scope : SScope) (nattrs : Nat) (late : Option Code)
+  | compare (entry : List Char) (late : Option Code)
   /-- any other wire operation (payload irrelevant) -/
   | other (op : WireOp)
 deriving DecidableEq, Repr, Inhabited
@@ -564,31 +574,31 @@ def doOp (w : World) (st : Option Token) (m : Msg) (op : ServerOp) : Outcome × 
     match st with
     | some t => (.whoami t.owner, [])
     | none => (.respond .operationsError none, [])
-  | .search, .search base scope n =>
+  | .search, .search base scope n late =>
     match st with
     | some t =>
       if calls == [.doSearch] then
-        (doSearch w (if boundUsesSessionToken then t else ⟨t.owner, .unixBind t.owner⟩) none base scope n, [])
+        (doSearch w (if boundUsesSessionToken then t else ⟨t.owner, .unixBind t.owner⟩) none base scope n late, [])
       else (.disconnect .other, [])
     | none =>
       if calls == [.doBind, .doSearch] then
         let r := if implicitBindAnonymous then doBind w [] 0 false else doBind w [] 1 false
         match r.res with
-        | .ok (some lbt) => (doSearch w lbt (some lbt) base scope n, r.delayed)
+        | .ok (some lbt) => (doSearch w lbt (some lbt) base scope n late, r.delayed)
         | .ok none => (.respond .invalidCredentials none, r.delayed)
         | .error e => (errRespond e, r.delayed)
       else (.disconnect .other, [])
-  | .compare, .compare entry =>
+  | .compare, .compare entry late =>
     match st with
     | some t =>
       if calls == [.doCompare] then
-        (doCompare w (if boundUsesSessionToken then t else ⟨t.owner, .unixBind t.owner⟩) none entry, [])
+        (doCompare w (if boundUsesSessionToken then t else ⟨t.owner, .unixBind t.owner⟩) none entry late, [])
       else (.disconnect .other, [])
     | none =>
       if calls == [.doBind, .doCompare] then
         let r := if implicitBindAnonymous then doBind w [] 0 false else doBind w [] 1 false
         match r.res with
-        | .ok (some lbt) => (doCompare w lbt (some lbt) entry, r.delayed)
+        | .ok (some lbt) => (doCompare w lbt (some lbt) entry late, r.delayed)
         | .ok none => (.respond .invalidCredentials none, r.delayed)
         | .error e => (errRespond e, r.delayed)
       else (.disconnect .other, [])
